@@ -193,11 +193,11 @@ theorem array_compose' (o : Opt) (d : Nat) (xs : List Bytes) (hd : d < o.maxDept
       simpa using e
 
 /-- one step of the member loop -/
-theorem member_step (o : Opt) (d : Nat) (nm v tail : Bytes) (seen : List (List Nat)) (c : UInt8)
+theorem member_step (o : Opt) (d : Nat) (nm v tail : Bytes) (seen : List Bytes) (c : UInt8)
     (hn : validString o nm = true) (hv : validAt o d v = true) (hc : c = 0x2c ∨ c = 0x7d)
-    (hk : o.noDup = true → nameKey nm ∉ seen) :
+    (hk : o.noDup = true → o.key nm ∉ seen) :
     parse o (.members seen) d (nm ++ 0x3a :: (v ++ c :: tail)) =
-      if c = 0x2c then parse o (.members (nameKey nm :: seen)) d tail else some tail := by
+      if c = 0x2c then parse o (.members (o.key nm :: seen)) d tail else some tail := by
   cases nm with
   | nil => simp [validString] at hn
   | cons q body =>
@@ -217,7 +217,7 @@ theorem member_step (o : Opt) (d : Nat) (nm v tail : Bytes) (seen : List (List N
         simp; omega
       rw [this, ← List.cons_append, List.take_left']
       rfl
-    have hk' : (o.noDup && seen.contains (nameKey (0x22 :: body))) = false := by
+    have hk' : (o.noDup && seen.contains (o.key (0x22 :: body))) = false := by
       cases hnd : o.noDup with
       | false => simp
       | true => simpa using hk hnd
@@ -226,9 +226,9 @@ theorem member_step (o : Opt) (d : Nat) (nm v tail : Bytes) (seen : List (List N
     simp only [e1, List.nil_append, true_and, hlen1, htake, hk', e2, hlen2, if_true]
     rcases hc with rfl | rfl <;> simp
 
-theorem members_compose (o : Opt) (d : Nat) : ∀ (ms : List (Bytes × Bytes)) (seen : List (List Nat)) (r : Bytes),
+theorem members_compose (o : Opt) (d : Nat) : ∀ (ms : List (Bytes × Bytes)) (seen : List Bytes) (r : Bytes),
     ms ≠ [] → (∀ m ∈ ms, validString o m.1 = true ∧ validAt o d m.2 = true) →
-    (o.noDup = true → (ms.map fun m => nameKey m.1).Nodup ∧ ∀ m ∈ ms, nameKey m.1 ∉ seen) →
+    (o.noDup = true → (ms.map fun m => o.key m.1).Nodup ∧ ∀ m ∈ ms, o.key m.1 ∉ seen) →
     parse o (.members seen) d (joinElems (ms.map member) ++ 0x7d :: r) = some r
   | [], _, _, h, _, _ => absurd rfl h
   | [m], seen, r, _, hm, hk => by
@@ -241,7 +241,7 @@ theorem members_compose (o : Opt) (d : Nat) : ∀ (ms : List (Bytes × Bytes)) (
     rw [member_step o d m.1 m.2 _ seen 0x2c (hm m (by simp)).1 (hm m (by simp)).2 (.inl rfl)
       (fun hnd => (hk hnd).2 m (by simp))]
     simp only [if_true]
-    have ih := members_compose o d (m2 :: ms) (nameKey m.1 :: seen) r (by simp)
+    have ih := members_compose o d (m2 :: ms) (o.key m.1 :: seen) r (by simp)
       (fun z hz => hm z (by simp at hz ⊢; exact .inr hz))
       (fun hnd => by
         obtain ⟨hnod, hseen⟩ := hk hnd
@@ -262,7 +262,7 @@ theorem members_compose (o : Opt) (d : Nat) : ∀ (ms : List (Bytes × Bytes)) (
 and (under the no-duplicates option) the names are pairwise distinct as JSON strings. -/
 theorem object_compose' (o : Opt) (d : Nat) (ms : List (Bytes × Bytes)) (hd : d < o.maxDepth)
     (h : ∀ m ∈ ms, validString o m.1 = true ∧ validAt o (d + 1) m.2 = true)
-    (hk : o.noDup = true → (ms.map fun m => nameKey m.1).Nodup) : validAt o d (obj ms) = true := by
+    (hk : o.noDup = true → (ms.map fun m => o.key m.1).Nodup) : validAt o d (obj ms) = true := by
   cases ms with
   | nil => exact validAt_emptyObj o d hd
   | cons m ms' =>
